@@ -240,7 +240,8 @@ def judge_result(spec, res, line, seq_id=None):
 
 # ------------------------------------------------------------ scenarios
 def scenario(chk, d, name, nfiles, kinds, nlines, distinct, seq=False,
-             first_line=None, reuse=None, first_start=None):
+             first_line=None, reuse=None, first_start=None,
+             seq_body_stored=True):
     """ build files + searcher, run, return observations.  `reuse` = an
     earlier scenario whose definition OBJECTS are used again (a definition
     may serve any number of runs) """
@@ -255,13 +256,16 @@ def scenario(chk, d, name, nfiles, kinds, nlines, distinct, seq=False,
         specs = make_defs(rng, kinds)
     if seq and seqdef is None:
         seqdef = SequenceSearchDef(start=SearchDef(r'START (\S+)'),
-                                   body=SearchDef(r'BODY (\S+) (\S+)'),
+                                   body=SearchDef(
+                                       r'BODY (\S+) (\S+)',
+                                       store_result_contents=seq_body_stored),
                                    end=SearchDef(r'STOP (\S+)'), tag='seqT')
         for part, pat in (('start', r'START (\S+)'),
                           ('body', r'BODY (\S+) (\S+)'),
                           ('end', r'STOP (\S+)')):
             seq_specs[f"seqT-{part}"] = {
-                'tag': f"seqT-{part}", 'fields': None, 'store': True,
+                'tag': f"seqT-{part}", 'fields': None,
+                'store': seq_body_stored or part != 'body',
                 're': re.compile(pat), 'pattern': pat, 'kind': 'seq'}
     extra = [s['tag'] for s in specs]
     if seqdef is not None:
@@ -526,11 +530,12 @@ def run(chk):
     plans = []
 
     def plan(nfiles, kinds, nlines, distinct, seq=False, first_line=None,
-             group=None, first_start=None):
+             group=None, first_start=None, seq_body_stored=True):
         plans.append({'nfiles': nfiles, 'kinds': kinds, 'nlines': nlines,
                       'distinct': distinct, 'seq': seq,
                       'first_line': first_line, 'group': group,
-                      'first_start': first_start})
+                      'first_start': first_start,
+                      'seq_body_stored': seq_body_stored})
     reps = 1 if chk.quick else 5
     for _ in range(reps):
         # small, heavy duplication: single and multi file, every def kind
@@ -561,6 +566,10 @@ def run(chk):
              group=g + 's')
         plan(3, ['two'], 30, 3, seq=True, first_start='seqT-start',
              group=g + 's')
+        # a sequence part that does not store its contents still belongs
+        # to its sequence
+        plan(1, ['two'], 40, 3, seq=True, seq_body_stored=False)
+        plan(3, ['opt'], 40, 3, seq=True, seq_body_stored=False)
         # values equal to tags / sequence ids, sequences
         plan(1, ['two', 'typed'], 80, 5, seq=True)
         plan(3, ['opt', 'named'], 80, 5, seq=True)
@@ -580,7 +589,8 @@ def run(chk):
             sc = scenario(chk, d, f"s{n}", nfiles, kinds, nlines,
                           pl['distinct'], pl['seq'], pl['first_line'],
                           reuse=groups.get(pl['group']),
-                          first_start=pl['first_start'])
+                          first_start=pl['first_start'],
+                          seq_body_stored=pl['seq_body_stored'])
             if pl['group'] is not None:
                 if pl['group'] in groups:
                     chk.dist('runs-reusing-definition-objects')
